@@ -37,7 +37,49 @@ def gen(tu):
         yield tag, guarded(run)
 
 
+def gen_sanitized(tu):
+    """C17 (bounded, thorough): the pinned suite under ASan + UBSan in the portable configuration, and under -funsigned-char (the ARM targets' char
+    signedness) -- C++-level undefined behaviour that the extracted-C units cannot model (object lifetime, union members, vptr-free here) is at least
+    exercised on the suite's inputs"""
+    cfgs = (("portable, 64-bit words, AddressSanitizer + UndefinedBehaviorSanitizer", "clang++", "-DDISABLE_ASM -fsanitize=address,undefined -fno-sanitize-recover=undefined -g", "-fsanitize=address,undefined"),
+            ("x86-64 assembly configuration compiled with -funsigned-char (char signedness of the ARM targets)", "clang++", "-funsigned-char", ""))
+    for tag, cxx, flags, ld in cfgs:
+        def run(path, tag=tag, cxx=cxx, flags=flags, ld=ld):
+            wd = tempfile.mkdtemp(prefix="jpv.san.")
+            try:
+                for d in ("include", "src", "tests"):
+                    shutil.copytree(os.path.join(REPO, d), os.path.join(wd, d), symlinks=True, ignore=shutil.ignore_patterns("bin", "*.o", "*.a", "test"))
+                tdir = os.path.join(wd, "tests")
+                lib = os.path.join(tdir, "lib")
+                if os.path.islink(lib) or not os.path.exists(lib):
+                    if os.path.islink(lib):
+                        os.unlink(lib)
+                    os.symlink("..", lib)
+                r = subprocess.run(["make", "-j8", "CXX=" + cxx, "CXXFLAGS=-std=c++17 -I../include -O1 -fno-vectorize " + flags, "LDFLAGS=" + ld], cwd=tdir, capture_output=True, text=True, timeout=2400)
+                if r.returncode != 0:
+                    raise ExtractionError("test suite does not build in configuration %s: %s" % (tag, (r.stdout + r.stderr)[-800:]))
+                obs = []
+                for args in ([], ["wkdibe"]):
+                    t = subprocess.run([os.path.join(tdir, "test")] + args, cwd=tdir, capture_output=True, text=True, timeout=2400, env=dict(os.environ, ASAN_OPTIONS="detect_leaks=0"))
+                    out = t.stdout + t.stderr
+                    np_, nf = out.count("PASS"), out.count("FAIL")
+                    rep = ("runtime error:" in out) or ("AddressSanitizer" in out)
+                    obs.append(("[%s] ./test %s: %d PASS, %d FAIL, sanitizer report: %s, exit %d" % (tag, " ".join(args), np_, nf, rep, t.returncode),
+                                "ok" if (nf == 0 and np_ > 0 and t.returncode == 0 and not rep) else "fail", out[-600:] if (nf or rep or t.returncode) else "", None))
+                return obs
+            finally:
+                shutil.rmtree(wd, ignore_errors=True)
+        yield tag, guarded(run)
+
+
 def units():
+    s_ = ScenUnit("the library's test suite under AddressSanitizer + UndefinedBehaviorSanitizer (portable configuration) and with -funsigned-char: only PASS lines, no report", ["C17"], gen_sanitized,
+                  tier="thorough", kind="bounded", bound="the pinned suite's own sampling (71 + 8 tests)", targets=[], note="bounded dynamic evidence for the C++-level UB classes the extracted-C units do not model; scratch build outside /repo and /verif")
+    s_.back_end = "NATIVE"
+    return _units0() + [s_]
+
+
+def _units0():
     u = ScenUnit("the library's test suite rebuilt in the portable 64-bit-word and 32-bit-word configurations: only PASS lines", P, gen, tier="thorough", kind="bounded",
                  bound="the pinned suite's own sampling (71 + 8 tests)", targets=[], note="bounded evidence; scratch build outside /repo and /verif, removed afterwards")
     u.back_end = "NATIVE"
